@@ -132,7 +132,11 @@ Honest(net, ip, qn, qt) ==
     IF zs = {} THEN Resp("refused", FALSE, {}, {}, {})
     ELSE LET z    == CHOOSE x \in zs : \A y \in zs : Len(y.apex) <= Len(x.apex)
              cuts == {c \in z.cuts : InZone(qn, c)}
-         IN IF cuts # {}
+         IN IF qt = "DS" /\ qn \in z.cuts
+            \* the DS RRset of a delegated zone lives on the parent side of the cut (RFC 4035 3.1.4.1):
+            \* answered here, with authority (no DS records in these internets: no data)
+            THEN Resp("noerror", TRUE, {}, {Soa(z)}, {})
+            ELSE IF cuts # {}
             THEN LET c  == Longest(cuts)
                      nr == {r \in z.recs : r.o = c /\ r.t = "NS"}
                  IN Resp("noerror", FALSE, {}, nr, GlueFor(z, nr))
